@@ -1295,6 +1295,10 @@ func pickIdlePieces(t *Torrent, count int) {
 		for _, p := range t.peers {
 			fast := p.GetFast()
 			for _, i := range fast {
+				if i >= uint32(maxp) {
+					// received before we knew the metadata
+					continue
+				}
 				if !t.Pieces.Complete(i) && p.GetHave(i) {
 					if add(i) {
 						return
